@@ -121,6 +121,11 @@ trait Comp: Sized {
         None
     }
     /// `dst.clone_from(self)`; false = not cloneable
+    /// a freshly built object of the same type with a DIFFERENT configuration (sizes, sample window, seeds), used as the
+    /// destination of `clone_from`: the in-place form must overwrite the destination's configuration too (round 9, C16h)
+    fn fresh_other(&mut self) -> Option<Self> {
+        None
+    }
     fn clone_into(&self, _dst: &mut Self) -> bool {
         false
     }
@@ -907,6 +912,12 @@ impl Comp for TinyComp {
     fn try_clone(&self) -> Option<Self> {
         Some(TinyComp { t: self.t.clone() })
     }
+    fn fresh_other(&mut self) -> Option<Self> {
+        let d = self.t.verif_dump();
+        TinyLFU::<u64>::new(97, (d.samples as usize).saturating_mul(5).saturating_add(3).min(1 << 20), 0.02)
+            .ok()
+            .map(|t| TinyComp { t })
+    }
     fn geo(&self) -> Option<String> {
         // the key hasher is configuration too: a clone must hash every key as the original does
         let kh: Vec<String> = (0u64..=8).map(|k| format!("{:x}", self.t.hash_key(&k))).collect();
@@ -942,6 +953,8 @@ impl<K: Hash + Eq> KeyHasher<K> for TableKH {
 
 struct WtComp<K: KeyKind, S: BuildHasher> {
     c: WTinyLFUCache<K, TV, TableKH, S, S, S>,
+    /// an empty cache with other part sizes and another sample window, handed out once as a `clone_from` destination
+    other: Option<WTinyLFUCache<K, TV, TableKH, S, S, S>>,
 }
 impl<K: KeyKind, S: BuildHasher + Clone> Comp for WtComp<K, S> {
     fn op(&mut self, op: &str, sa: &[&str]) -> Option<String> {
@@ -981,7 +994,11 @@ impl<K: KeyKind, S: BuildHasher + Clone> Comp for WtComp<K, S> {
     fn try_clone(&self) -> Option<Self> {
         Some(WtComp {
             c: in_call(|| self.c.clone()),
+            other: None,
         })
+    }
+    fn fresh_other(&mut self) -> Option<Self> {
+        self.other.take().map(|c| WtComp { c, other: None })
     }
     fn geo(&self) -> Option<String> {
         let (w, m, t) = self.c.verif_parts();
@@ -1336,7 +1353,18 @@ fn drive<C: Comp>(
                                         None
                                     }
                                 }
-                                None => m.try_clone().map(Some),
+                                None => match m.fresh_other() {
+                                    // no alt yet: where the component can build a differently configured object, that one is
+                                    // the destination of `clone_from`
+                                    Some(mut a) => {
+                                        if m.clone_into(&mut a) {
+                                            Some(Some(a))
+                                        } else {
+                                            None
+                                        }
+                                    }
+                                    None => m.try_clone().map(Some),
+                                },
                             }));
                             match r {
                                 Err(_) => {
@@ -1823,7 +1851,23 @@ fn run_keyed<K: KeyKind>(case: &Case, out: &mut impl Write) {
                             .set_false_positive_ratio(fp)
                             .finalize::<TV>(),
                     })
-                        .map(|c| WtComp { c })
+                        .map(|c| {
+                            let table2: HashMap<u64, u64> = case.kh.iter().cloned().collect();
+                            let other = WTinyLFUCacheBuilder::<K, TableKH, VH, VH, VH>::with_hashers(
+                                TableKH { table: Rc::new(table2) },
+                                h.clone(),
+                                h.clone(),
+                                h.clone(),
+                            )
+                            .set_window_cache_size(w + 1)
+                            .set_protected_cache_size(q + 2)
+                            .set_probationary_cache_size(p + 1)
+                            .set_samples(samples.saturating_mul(5).saturating_add(3).min(1 << 20))
+                            .set_false_positive_ratio(0.02)
+                            .finalize::<TV>()
+                            .ok();
+                            WtComp { c, other }
+                        })
                         .map_err(|e| errname(&format!("{:?}", e)))
                 },
                 case,
